@@ -38,6 +38,10 @@ pub enum After {
     /// while the session idles, undecryptable packets in the peer's name keep arriving from its address
     /// at intervals shorter than the timeout; more than 1.3 x timeout after the last genuine use V submits
     VSubmitsAfterKnocks,
+    /// before the idle period V sends the peer a request that is lost; after the idle period V's
+    /// request timer fires and V retransmits it (needs request_retries >= 2) - re-sending old
+    /// ciphertext is no use of the session - and then the peer sends V a request under its session
+    PeerSubmitsAfterRetransmission,
 }
 
 #[derive(Clone, Copy, Debug, PartialEq, Eq, Hash, Serialize, Deserialize)]
@@ -51,6 +55,8 @@ pub enum COp {
     /// a short real sleep (10..100 ms, i.e. less than the 120 ms timeout): some sessions age while
     /// others are refreshed in between
     Nap(u8),
+    /// V sends peer p a request and everything V emits for it is lost (no handshake can follow)
+    SubmitLost(u8),
 }
 
 #[derive(Clone, Debug, PartialEq, Eq, Hash, Serialize, Deserialize)]
@@ -63,6 +69,9 @@ pub struct Case {
     /// contact V (V's own handshakes to them fail the record check by design)
     #[serde(default)]
     pub nat: u8,
+    /// request_retries of the handlers (0 = the usual 1)
+    #[serde(default)]
+    pub retries: u8,
 }
 
 pub struct C15;
@@ -110,7 +119,7 @@ async fn run(case: &Case, rep: &mut CaseReport) -> Option<(String, String)> {
     let cap = case.capacity.clamp(1, 5) as usize;
     let cfg = WireConfig {
         n_peers,
-        retries: 1,
+        retries: if case.retries == 0 { 1 } else { case.retries.min(3) },
         filter: false,
         wru_mode: vec![AppMode::Immediate; 8],
         wru_know: vec![Know::Current; 8],
@@ -123,6 +132,7 @@ async fn run(case: &Case, rep: &mut CaseReport) -> Option<(String, String)> {
         dual_records: false,
         v_session_timeout_ms: if case.short_timeout { Some(SHORT_TIMEOUT_MS) } else { None },
         v_session_capacity: Some(cap as u8),
+        v_dual_listen: false,
     };
     let mut w = World::new(cfg).await;
     // ledger: last use per peer (op index) and wall-clock instant after the op that touched it
@@ -135,6 +145,9 @@ async fn run(case: &Case, rep: &mut CaseReport) -> Option<(String, String)> {
     // (retransmission, request timeout -> session failure) such a peer's session is no longer judged.
     let mut cut_at: HashMap<usize, u64> = HashMap::new();
     let mut limbo: std::collections::HashSet<usize> = std::collections::HashSet::new();
+    // sessions the harness has MEASURED to be idle for more than 1.3 x timeout (instant of their last
+    // genuine use), until something touches them again
+    let mut expired_since: HashMap<usize, Instant> = HashMap::new();
     let mut long_idles = 0;
     let mut naps = 0;
     for (opi, op) in case.ops.iter().enumerate() {
@@ -188,6 +201,16 @@ async fn run(case: &Case, rep: &mut CaseReport) -> Option<(String, String)> {
                     if !fresh_gone.is_empty() {
                         rep.class("expiry-regime/unexpired-session-dropped-for-capacity");
                         rep.nontrivial = true;
+                        for a in after.iter().filter(|a| **a != p) {
+                            if let Some(t) = expired_since.get(a) {
+                                if t.elapsed() > timeout * 13 / 10 {
+                                    return Some((
+                                        "sessions/expired-session-kept-while-a-live-one-was-dropped".into(),
+                                        format!("cache full ({cap}); establishing a session with peer {p} dropped the session(s) of {fresh_gone:?} (certainly not expired) while the session of peer {a}, unused for {:?} (timeout {SHORT_TIMEOUT_MS} ms), is still held", t.elapsed()),
+                                    ));
+                                }
+                            }
+                        }
                         if before.contains(&p) || after.len() < cap || fresh_gone.len() > 1 {
                             return Some((
                                 "sessions/session-lost-without-capacity-pressure".into(),
@@ -237,10 +260,34 @@ async fn run(case: &Case, rep: &mut CaseReport) -> Option<(String, String)> {
                 }
                 last_touch.insert(p, Instant::now());
                 if touched_since(&w, ev_start, p) {
+                    expired_since.remove(&p);
                     last_use.insert(p, opi + 1);
                     touch_start.insert(p, op_start);
                 } else {
                     limbo.insert(p);
+                }
+            }
+            COp::SubmitLost(p) => {
+                let p = 1 + (p as usize % n_peers as usize);
+                if !case.short_timeout || case.nat & (1 << (p - 1)) != 0 || cut_at.contains_key(&p) {
+                    continue;
+                }
+                let held = w.snaps[0].sessions.iter().any(|s| s.addr.socket_addr == w.nodes[p].addr);
+                let idle = last_touch.get(&p).map(|t| t.elapsed());
+                let ev0 = w.events.len();
+                act(&mut w, &Op::Submit { from: 0, to: p as u8, body: Body::Ping, with_record: true });
+                w.settle().await;
+                w.step += 1;
+                w.pool.clear();
+                cut_at.insert(p, w.now_ms());
+                match (held, idle, last_touch.get(&p).copied()) {
+                    (true, Some(d), Some(t)) if d > Duration::from_millis(SHORT_TIMEOUT_MS * 13 / 10) && !touched_since(&w, ev0, p) => {
+                        expired_since.insert(p, t);
+                        rep.class("request-to-a-peer-with-an-expired-session-lost(no new handshake)");
+                    }
+                    _ => {
+                        limbo.insert(p);
+                    }
                 }
             }
             COp::Nap(ms) => {
@@ -260,6 +307,17 @@ async fn run(case: &Case, rep: &mut CaseReport) -> Option<(String, String)> {
                     continue;
                 }
                 let mut held_for_later = Vec::new();
+                if then == After::PeerSubmitsAfterRetransmission {
+                    if case.retries < 2 || cut_at.contains_key(&p) || !w.snaps[0].sessions.iter().any(|s| s.addr.socket_addr == w.nodes[p].addr) {
+                        continue;
+                    }
+                    // V's request goes out under the session and is lost
+                    act(&mut w, &Op::Submit { from: 0, to: p as u8, body: Body::Ping, with_record: true });
+                    w.settle().await;
+                    w.step += 1;
+                    w.pool.clear();
+                    last_touch.insert(p, Instant::now());
+                }
                 if then == After::VAnswersLate {
                     // the peer's request is delivered to V's application, which does not answer yet
                     w.cfg.resp_mode[0] = AppMode::Manual;
@@ -294,6 +352,16 @@ async fn run(case: &Case, rep: &mut CaseReport) -> Option<(String, String)> {
                         w.step += 1;
                         w.pool.clear();
                     }
+                }
+                if then == After::PeerSubmitsAfterRetransmission {
+                    // V's request timer fires: the stored packet is sent again (and lost again)
+                    let log0 = w.log.len();
+                    crate::engines::wire_interp::advance(&mut w, Duration::from_millis(REQUEST_TIMEOUT_MS * 6 / 5)).await;
+                    if w.log[log0..].iter().any(|d| d.from_node == Some(0) && d.to_addr == w.nodes[p].addr) {
+                        rep.class("request-retransmitted-after-the-idle-period");
+                    }
+                    w.pool.clear();
+                    cut_at.insert(p, w.now_ms());
                 }
                 if knocks > 0 {
                     rep.class("undecryptable-packets-from-the-peer's-address-during-the-idle-period");
@@ -388,7 +456,7 @@ async fn run(case: &Case, rep: &mut CaseReport) -> Option<(String, String)> {
                             rep.class("after-expiry-late-answer-not-sent-under-the-old-key");
                         }
                     }
-                    After::PeerSubmits | After::PeerSubmitsThenStale => {
+                    After::PeerSubmits | After::PeerSubmitsThenStale | After::PeerSubmitsAfterRetransmission => {
                         act(&mut w, &Op::Submit { from: p as u8, to: 0, body: Body::Ping, with_record: true });
                         w.settle().await;
                         w.step += 1;
@@ -461,6 +529,7 @@ async fn run(case: &Case, rep: &mut CaseReport) -> Option<(String, String)> {
                 }
                 last_touch.insert(p, Instant::now());
                 if touched_since(&w, ev_before, p) {
+                    expired_since.remove(&p);
                     last_use.insert(p, opi + 1);
                     touch_start.insert(p, op_start);
                 } else {
@@ -489,18 +558,23 @@ impl Property for C15 {
         tier.pick(1_200, 12_000)
     }
     fn strategy(_tier: Tier) -> BoxedStrategy<Case> {
-        let after = || prop_oneof![3 => Just(After::VSubmits), 3 => Just(After::PeerSubmits), 2 => Just(After::VSubmitsThenStale), 2 => Just(After::PeerSubmitsThenStale), 2 => Just(After::VSubmitsHandshakeLost), 2 => Just(After::VAnswersLate), 2 => Just(After::VSubmitsAfterKnocks)];
+        let after = || prop_oneof![3 => Just(After::VSubmits), 3 => Just(After::PeerSubmits), 2 => Just(After::VSubmitsThenStale), 2 => Just(After::PeerSubmitsThenStale), 2 => Just(After::VSubmitsHandshakeLost), 2 => Just(After::VAnswersLate), 2 => Just(After::VSubmitsAfterKnocks), 2 => Just(After::PeerSubmitsAfterRetransmission)];
         let op = || {
             prop_oneof![
                 5 => (0u8..6).prop_map(COp::ExchangeOut),
                 3 => (0u8..6).prop_map(COp::ExchangeIn),
                 3 => (0u8..6, after()).prop_map(|(p, a)| COp::IdleLong(p, a)),
                 1 => (30u8..100).prop_map(COp::Nap),
+                1 => (0u8..6).prop_map(COp::SubmitLost),
             ]
         };
         let nat = || prop_oneof![3 => Just(0u8), 1 => any::<u8>()];
         let free = (2u8..=6, 1u8..=5, any::<bool>(), proptest::collection::vec(op(), 2..16), nat())
-            .prop_map(|(n_peers, capacity, short_timeout, ops, nat)| Case { n_peers, capacity, short_timeout, ops, nat });
+            .prop_map(|(n_peers, capacity, short_timeout, ops, nat)| {
+                // request_retries 3 wherever a retransmission is part of the script
+                let retries = if ops.iter().any(|o| matches!(o, COp::IdleLong(_, After::PeerSubmitsAfterRetransmission))) { 3 } else { 0 };
+                Case { n_peers, capacity, short_timeout, ops, nat, retries }
+            });
         // the cache is filled to its capacity, one of its sessions times out and is re-established,
         // then peers that have no session yet arrive: who is dropped to make room?
         let pressure = (1u8..=4, proptest::collection::vec(any::<bool>(), 8), 0u8..4, prop_oneof![1 => Just(After::VSubmits), 1 => Just(After::PeerSubmits), 2 => Just(After::VSubmitsHandshakeLost)], 1u8..=2, proptest::collection::vec(op(), 0..5), nat())
@@ -514,7 +588,7 @@ impl Property for C15 {
                     ops.push(ex(cap + j, dirs[(4 + j) as usize]));
                 }
                 ops.extend(tail);
-                Case { n_peers, capacity: cap, short_timeout: true, ops, nat }
+                Case { n_peers, capacity: cap, short_timeout: true, ops, nat, retries: 0 }
             });
         // expiry and capacity together: the cache is filled, the oldest session ages beyond the time-out
         // while the others are refreshed in between, then newcomers arrive (the purge removes the
@@ -532,9 +606,28 @@ impl Property for C15 {
                 ops.push(ex(cap + j, dirs[(8 + j) as usize]));
             }
             ops.extend(tail);
-            Case { n_peers, capacity: cap, short_timeout: true, ops, nat }
+            Case { n_peers, capacity: cap, short_timeout: true, ops, nat, retries: 0 }
         });
-        prop_oneof![6 => free, 2 => pressure, 1 => aging].boxed()
+        // the oldest session ages beyond the time-out while the others are refreshed twice; V then sends
+        // its peer a request that is lost (no new handshake), and newcomers arrive at full capacity
+        let aging_lost = (2u8..=4, proptest::collection::vec(any::<bool>(), 16), 88u8..100, 1u8..=2, proptest::collection::vec(op(), 0..3)).prop_map(|(cap, dirs, nap, newcomers, tail)| {
+            let n_peers = (cap + 2).min(6);
+            let ex = |i: u8, out: bool| if out { COp::ExchangeOut(i) } else { COp::ExchangeIn(i) };
+            let mut ops: Vec<COp> = (0..cap).map(|i| ex(i, dirs[i as usize])).collect();
+            for round in 0..2u8 {
+                ops.push(COp::Nap(nap));
+                for i in 1..cap {
+                    ops.push(ex(i, dirs[(4 + 4 * round + i) as usize]));
+                }
+            }
+            ops.push(COp::SubmitLost(0));
+            for j in 0..newcomers {
+                ops.push(ex(cap + j, dirs[(12 + j) as usize]));
+            }
+            ops.extend(tail);
+            Case { n_peers, capacity: cap, short_timeout: true, ops, nat: 0, retries: 0 }
+        });
+        prop_oneof![6 => free, 2 => pressure, 1 => aging, 1 => aging_lost].boxed()
     }
     fn run(case: &Case) -> CaseReport {
         let mut rep = CaseReport::default();
@@ -548,7 +641,7 @@ impl Property for C15 {
         rep
     }
     fn rule() -> String {
-        "V (real handler, virtual wire) with session_cache_capacity 1..5 and session_timeout in {120 ms real, 1 day}, 2..6 honest peers; ops: complete exchanges in either direction (establish / refresh sessions) and, in the 120 ms regime, at most two real idle periods per case that last until the harness has MEASURED more than 1.3 x timeout since the end of the last op that touched that session, followed by V submitting a request to the idle peer, the idle peer sending V a request under its (unexpired) session, or V's application answering a request of that peer it has been holding since before the idle period, or V submitting after undecryptable packets in the peer's name kept arriving from its address every 40 ms during the idle period. In a quarter of the cases some peers are behind NAT (their record advertises another socket; they only ever contact V). X1: the datagram V then emits does not decrypt under any key V held before the idle period, and a message under the old session is not delivered before a new handshake; X2: V's probe snapshot never lists more sessions than the capacity; X3 (1-day regime): a session disappears only when a new one is established at full capacity, exactly one, and it belongs to the peer least recently used according to the harness ledger. Short naps (10..100 ms) let some sessions age while others are refreshed; by-construction scenarios: capacity pressure after a re-established session, and the oldest session aging out while the others are refreshed before newcomers arrive. Non-trivial = a measured long idle followed by traffic, or a session established at full capacity.".into()
+        "V (real handler, virtual wire) with session_cache_capacity 1..5 and session_timeout in {120 ms real, 1 day}, 2..6 honest peers; ops: complete exchanges in either direction (establish / refresh sessions) and, in the 120 ms regime, at most two real idle periods per case that last until the harness has MEASURED more than 1.3 x timeout since the end of the last op that touched that session, followed by V submitting a request to the idle peer, the idle peer sending V a request under its (unexpired) session, or V's application answering a request of that peer it has been holding since before the idle period, or the peer sending a request after V retransmitted (request_retries 3) a request of its own that was lost before the idle period, or V submitting after undecryptable packets in the peer's name kept arriving from its address every 40 ms during the idle period. In a quarter of the cases some peers are behind NAT (their record advertises another socket; they only ever contact V). X1: the datagram V then emits does not decrypt under any key V held before the idle period, and a message under the old session is not delivered before a new handshake; X2: V's probe snapshot never lists more sessions than the capacity; X3 (1-day regime): a session disappears only when a new one is established at full capacity, exactly one, and it belongs to the peer least recently used according to the harness ledger. Short naps (10..100 ms) let some sessions age while others are refreshed; by-construction scenarios: capacity pressure after a re-established session, the oldest session aging out while the others are refreshed twice and V then sending its peer a request that is lost (the expired entry must not outlive a live one when newcomers need room), and the oldest session aging out while the others are refreshed before newcomers arrive. Non-trivial = a measured long idle followed by traffic, or a session established at full capacity.".into()
     }
     fn assumptions() -> Vec<String> {
         vec![
